@@ -117,6 +117,24 @@ def check(prog, rep):
                f"transfer = {U(acc[0].value) if acc else '?'} with chi_diff = {U(diff[0].value) if diff else '?'}; normalisation chosen: {table}; "
                "swapping the two atoms negates chi_diff and selects the same physical atom's normaliser, and the damping factor is "
                "atom independent" if ok else f"the transfer term is not antisymmetric under swapping the atoms: {table}", we)
+    # within the cycle the running charge changes only by '+= delta (+ share)': anything else (clamping, rescaling) loses charge
+    cyc_stores = [x for x in iter_stmts(cyc.body) if isinstance(x, (ast.Assign, ast.AugAssign))
+                  and U(x.targets[0] if isinstance(x, ast.Assign) else x.target).endswith(".charge")]
+    bad_st = []
+    for x in cyc_stores:
+        if isinstance(x, ast.AugAssign) and isinstance(x.op, ast.Add):
+            v = U(x.value).replace(" ", "")
+            terms = {"atom.delta_charge", f"atom.delta_charge+1.0/{ncy}*atom.equil_formal_charge", f"atom.delta_charge+(1.0/{ncy})*atom.equil_formal_charge"}
+            if v in terms:
+                continue
+        bad_st.append(U(x)[:60])
+    r2.add("cycle-updates", bool(cyc_stores) and not bad_st,
+           f"stores to the running charge inside the cycle: {[U(x)[:40] for x in cyc_stores]}" + (f"; not a pure transfer/injection: {bad_st}" if bad_st else
+           " - pure additions of the antisymmetric transfer and the per-cycle share"), we)
+    # ... and after the cycles only the uniform scaling touches it
+    post = [x for st_ in eq.body[eq.body.index(cyc) + 1:] for x in iter_stmts([st_]) if isinstance(x, (ast.Assign, ast.AugAssign))
+            and U(x.targets[0] if isinstance(x, ast.Assign) else x.target).endswith(".charge")]
+    r2.add("post-cycle-updates", len(post) == 1, f"stores to the charge after the cycles: {[U(x)[:40] for x in post]} (only the uniform scaling)", we)
     r2.add("initial-reset", any(isinstance(s, ast.Assign) and U(s.targets[0]) == "atom.charge" and U(s.value) in ("0", "0.0") for s in iter_stmts(eq.body)),
            "running charges start from zero after the formal charge has been saved", we)
     ac = prog.func("ligand/mol2.py", "Mol2Molecule.assign_charges").node
@@ -182,6 +200,26 @@ def check(prog, rep):
     if n_uses == 0:
         r4.ok("no-name-use", "the charge slice never reads an atom name")
 
+    # 'first of the equivalent atoms' rules may only choose among atoms equivalent to the one being corrected
+    fcn = prog.func("ligand/mol2.py", "Mol2Atom.formal_charge").node
+    idx_calls = [c for c in calls_in(fcn) if isinstance(c.func, ast.Attribute) and c.func.attr == "index" and U(c.args[0]) == "self.name"]
+    for c in idx_calls:
+        lst = U(c.func.value)
+        branch = next((tst for tst, p in guards_of(c) if p and "self.type" in U(tst)), None)
+        fill = [x for x in iter_stmts(fcn.body) if isinstance(x, ast.Expr) and isinstance(x.value, ast.Call) and U(x.value.func) == f"{lst}.append"]
+        conds = [U(tst) for x in fill for tst, p in guards_of(x) if p and "atom." in U(tst)]
+        # the branch fixes element and bond order of self; the candidate filter must fix the same two
+        want_bo = None
+        if branch is not None:
+            import re as _re
+            m = _re.search(r"bond_order == (\d+)", U(branch))
+            want_bo = m.group(1) if m else None
+        ok = bool(fill) and want_bo is not None and any(f"atom.bond_order == {want_bo}" in x for x in conds) and any("atom.type[0] == 'O'" in x or "atom.type == self.type" in x for x in conds)
+        r4.add(f"first-of-equivalents|{lst}", ok,
+               f"the atom corrected here has bond order {want_bo}; candidates among which 'the first' is chosen are filtered by {conds}: "
+               + ("they are the symmetry-equivalent oxygens, so atom order can only exchange values among them" if ok else
+                  "NOT restricted to atoms equivalent to the corrected one - which atom is first, and hence the formal charge, depends on the listing order"),
+               f"pdb2pqr/ligand/mol2.py:{c.lineno} (Mol2Atom.formal_charge)")
     # ------------------------------------------------------------------ R5
     r5 = rep.rule("R5", "ligand parameters are transferred to the ligand's atoms only, once", floor=2)
     nt = prog.func("main.py", "non_trivial").node
